@@ -173,7 +173,7 @@ func (fr *frame) instr(ins ssa.Instruction, bc string, st *state) {
 			r := e.memRegion(arr.Elem())
 			e.zeroFill(st, r, base, intLit64(arr.Len()), arr.Elem())
 			fr.vals[i] = base
-			fr.ptrs[i] = &ptrInfo{region: r, addr: base, cell: arr.Elem(), arrLen: arr.Len()}
+			fr.ptrs[i] = &ptrInfo{region: r, addr: base, cell: arr.Elem(), arrLen: arr.Len(), flat: true}
 			return
 		}
 		if i.Heap {
@@ -212,7 +212,7 @@ func (fr *frame) instr(ins ssa.Instruction, bc string, st *state) {
 			p := fr.ptr(i.X)
 			o := fr.oblige("bounds", "index:"+fr.srcText(i.Pos()), bc, and(app("<=", "0", idx), app("<", idx, intLit64(arr.Len()))), i.Pos(), nil)
 			o.Src = fr.srcText(i.Pos())
-			if p.arrLen > 0 { // flattened
+			if p.flat { // flattened
 				fr.ptrs[i] = &ptrInfo{region: p.region, addr: app("+", p.addr, idx), cell: arr.Elem()}
 				fr.vals[i] = app("+", p.addr, idx)
 			} else {
@@ -232,7 +232,7 @@ func (fr *frame) instr(ins ssa.Instruction, bc string, st *state) {
 	case *ssa.Store:
 		p := fr.ptr(i.Addr)
 		v := fr.val(i.Val)
-		if p.arrLen > 0 {
+		if p.flat {
 			// storing a whole array value into flattened memory
 			fr.storeArray(st, p, v, i.Val.Type())
 			return
@@ -377,7 +377,12 @@ func (fr *frame) instr(ins ssa.Instruction, bc string, st *state) {
 }
 
 func maxAllocTerm(fr *frame) string {
-	return "4294967296" // 4 GiB elements: a larger make is reported as unbounded allocation
+	if sp := fr.e.rootSpec; sp != nil {
+		if v, ok := sp.Options["maxalloc"]; ok {
+			return v
+		}
+	}
+	return maxSliceCap
 }
 
 // zeroFill sets n cells from base to the zero value (quantified frame for the rest).
@@ -419,7 +424,7 @@ func (fr *frame) unop(i *ssa.UnOp, bc string, st *state) {
 				fr.oblige("nil", "deref:"+fr.srcText(i.Pos()), bc, not(eq(fr.val(i.X), "0")), i.Pos(), nil)
 			}
 		}
-		if p.arrLen > 0 {
+		if p.flat {
 			fr.vals[i] = fr.loadArray(st, p, i.Type())
 			return
 		}
@@ -641,7 +646,12 @@ func (e *Enc) declareStrCat() {
 }
 
 // strEq: equality on the uninterpreted Str sort (extensionality is an axiom in the prelude when enabled).
-func (e *Enc) strEq(x, y string) string { return eq(x, y) }
+func (e *Enc) strEq(x, y string) string {
+	if x == y {
+		return "true"
+	}
+	return app("gstr.eq", x, y)
+}
 
 func (fr *frame) floatBinop(i *ssa.BinOp, x, y, bc string) {
 	e := fr.e
@@ -787,7 +797,17 @@ func (fr *frame) typeAssert(i *ssa.TypeAssert, bc string, st *state) {
 	okT := eq(app("i.typ", x), id)
 	v := app(ub, app("i.val", x))
 	if i.CommaOk {
-		fr.tuples(i, []string{ite(okT, v, e.st.zero(i.AssertedType)), okT})
+		vn := e.define(fr.prefix+i.Name()+".v", so, v)
+		if ra := e.st.rangeAssume(i.AssertedType, vn, 0); ra != "" {
+			e.assume(implies(okT, ra))
+		}
+		switch i.AssertedType.Underlying().(type) {
+		case *types.Slice:
+			e.assume(implies(okT, app("<", app("+", app("s.base", vn), app("s.cap", vn)), e.get(st, "heapTop"))))
+		case *types.Pointer, *types.Map:
+			e.assume(implies(okT, app("<", vn, e.get(st, "heapTop"))))
+		}
+		fr.tuples(i, []string{ite(okT, vn, e.st.zero(i.AssertedType)), okT})
 		return
 	}
 	fr.oblige("typeassert", fr.srcText(i.Pos()), bc, okT, i.Pos(), nil)
@@ -837,7 +857,7 @@ func (fr *frame) slice(i *ssa.Slice, bc string, st *state) {
 	case *types.Pointer:
 		arr := xt.Elem().Underlying().(*types.Array)
 		p := fr.ptr(i.X)
-		if p.arrLen <= 0 {
+		if !p.flat {
 			e.errf("%s: slicing an array nested in a struct is outside the subset (%s)", fr.fn.Name(), fr.srcText(i.Pos()))
 			fr.havocVal(i, st)
 			return
@@ -948,7 +968,7 @@ func (fr *frame) ret(i *ssa.Return, bc string, st *state) {
 		env.lookup = func(name string) (binding, bool) { return fr.lookupLocal(name, blk, st) }
 		env.phiOf = func(loop int, name string) (binding, bool) {
 			for _, li := range fr.loops {
-				if li.ordinal != loop {
+				if li.ordinal != loop || !(li.header == blk || li.header.Dominates(blk)) {
 					continue
 				}
 				for _, instr := range li.header.Instrs {
@@ -968,9 +988,11 @@ func (fr *frame) ret(i *ssa.Return, bc string, st *state) {
 		for _, c := range fr.spec.Exits {
 			t, err := env.boolExpr(c.Text)
 			if err != nil {
-				e.errf("%s:%d: %v", c.File, c.Line, err)
+				// a return that precedes the loops/locals the clause talks about: the clause does not apply there
+				fr.exitSkipped[c.Label] = err.Error()
 				continue
 			}
+			fr.exitDone[c.Label] = true
 			o := fr.oblige("exit", c.Label, bc, t, i.Pos(), clauseProps(c, e))
 			o.Src = c.Text
 		}
@@ -994,11 +1016,20 @@ func (fr *frame) bindResults(env *specEnv, fn *ssa.Function, spec *FuncSpec, rs 
 	}
 }
 
+type prodEntry struct {
+	u, v string
+	tag  int
+}
+
+func (e *Enc) tagVisible(t int) bool {
+	return t == 0 || t == e.curTag || e.curAllowed == nil || e.curAllowed[t]
+}
+
 // product registers a non-linear product u*v and emits sign and monotonicity lemma instances
 // (valid facts of integer arithmetic) against earlier products sharing a factor.
 func (e *Enc) product(u, v string) {
 	for _, p := range e.products {
-		if (p[0] == u && p[1] == v) || (p[0] == v && p[1] == u) {
+		if e.tagVisible(p.tag) && ((p.u == u && p.v == v) || (p.u == v && p.v == u)) {
 			return
 		}
 	}
@@ -1006,9 +1037,13 @@ func (e *Enc) product(u, v string) {
 	e.assume(implies(and(app(">=", u, "1"), app(">=", v, "0")), app(">=", app("*", u, v), v)))
 	e.assume(implies(and(app(">=", v, "1"), app(">=", u, "0")), app(">=", app("*", u, v), u)))
 	for _, p := range e.products {
+		if !e.tagVisible(p.tag) {
+			continue
+		}
+		pp := [2]string{p.u, p.v}
 		for a := 0; a < 2; a++ {
 			for b := 0; b < 2; b++ {
-				pc, po := p[a], p[1-a]
+				pc, po := pp[a], pp[1-a]
 				var nc, no string
 				if b == 0 {
 					nc, no = u, v
@@ -1018,7 +1053,6 @@ func (e *Enc) product(u, v string) {
 				if pc != nc {
 					continue
 				}
-				// common factor c = pc: (po <= no) => po*c <= no*c when c >= 0 ; and converse
 				e.assume(implies(and(app(">=", pc, "0"), app("<=", po, no)), app("<=", app("*", po, pc), app("*", no, pc))))
 				e.assume(implies(and(app(">=", pc, "0"), app("<=", no, po)), app("<=", app("*", no, pc), app("*", po, pc))))
 				e.assume(implies(and(app(">=", pc, "0"), app("<", po, no)), app("<=", app("+", app("*", po, pc), pc), app("*", no, pc))))
@@ -1026,5 +1060,5 @@ func (e *Enc) product(u, v string) {
 			}
 		}
 	}
-	e.products = append(e.products, [2]string{u, v})
+	e.products = append(e.products, prodEntry{u, v, e.curTag})
 }
